@@ -258,6 +258,7 @@ theorem good_applyApi (eng : Engine) (c : Chart) (a : Api) (op : Op) (h : Good a
   | reset => exact h
   | destroy => exact h
   | getState => exact good_of_same_flags h rfl rfl rfl rfl
+  | inject ev => exact good_of_same_flags h rfl rfl rfl rfl
 
 theorem good_apply (eng : Engine) (c : Chart) (s : Session) (op : Op) (h : Good s.a) : Good (apply eng c s op).a := by
   cases op with
@@ -268,6 +269,7 @@ theorem good_apply (eng : Engine) (c : Chart) (s : Session) (op : Op) (h : Good 
   | receive ev => exact good_applyApi eng c s.a (.receive ev) h
   | cancel => exact good_applyApi eng c s.a .cancel h
   | getState => exact good_applyApi eng c s.a .getState h
+  | inject ev => exact good_applyApi eng c s.a (.inject ev) h
 
 theorem good_foldl (eng : Engine) (c : Chart) (ops : List Op) (s : Session) (h : Good s.a) :
     Good (ops.foldl (apply eng c) s).a := by
